@@ -2,6 +2,7 @@ package main
 
 import (
 	"bufio"
+	"bytes"
 	"encoding/json"
 	"fmt"
 	"log"
@@ -207,7 +208,7 @@ func runConf(lines []string, out *bufio.Writer) {
 			fmt.Fprintf(out, "? impl error bad-json\n")
 			continue
 		}
-		func() {
+		guardCase(out, c.ID, "trace", func(out *bytes.Buffer) {
 			defer func() {
 				if r := recover(); r != nil {
 					fmt.Fprintf(out, "%s impl panic %v\n", c.ID, r)
@@ -236,6 +237,6 @@ func runConf(lines []string, out *bufio.Writer) {
 				}
 			}
 			fmt.Fprintf(out, "%s impl direct %s\n", c.ID, same)
-		}()
+		})
 	}
 }
